@@ -36,3 +36,10 @@ def buf(n):
 def features(lib):
     names = ["sse2", "sse3", "ssse3", "sse41", "avx", "avx2", "avx512f", "pclmul", "aesni", "rdrand"]
     return {n: int(getattr(lib, "sodium_runtime_has_" + n)()) for n in names}
+
+
+def pool_map(fn, tasks, nproc):
+    """map over spawned worker processes; a worker that dies (segfault in ctypes) raises instead of hanging the parent"""
+    import concurrent.futures as cf, multiprocessing as mp
+    with cf.ProcessPoolExecutor(max_workers=nproc, mp_context=mp.get_context("spawn")) as ex:
+        return list(ex.map(fn, tasks))
